@@ -25,21 +25,22 @@ Record wl_side (c : cfg) (filter : chains) (e : env) (wl : list (list N * string
 }.
 
 Theorem model_meets_spec : forall c raw mangle filter wl e disp hepfwd towl p,
-  cfg_ok c -> ep_action_ok (c_ep_to_host c) -> N.land (c_wg_mark c) (c_scr0 c) = 0 ->
+  cfg_ok c -> ep_action_ok (c_ep_to_host c) -> c_ipvs c = false -> N.land (c_wg_mark c) (c_scr0 c) = 0 ->
   (forall q m, e_other e (2 * O_DST_LOCAL) (set_mark q m) = e_other e (2 * O_DST_LOCAL) q) ->
   installed c raw mangle filter -> hep_shapes raw mangle filter ->
   disp_ok raw (raw_hep_ok CH_FS_IN) CH_FROM_HEP = true -> disp_ok raw (raw_hep_ok CH_FS_OUT) CH_TO_HEP = true ->
   wl_side c filter e wl disp hepfwd towl ->
   pkt_ok false true c raw mangle filter wl e p = true.
 Proof.
-  intros c raw mangle filter wl e disp hepfwd towl p Hc Hep Hwg Hlocal Hinst Hsh R1 R2 [Wd Wr Wn Wt [Wh Whd] [Wt2 Wtd]].
+  intros c raw mangle filter wl e disp hepfwd towl p Hc Hep Hipvs Hwg Hlocal Hinst Hsh R1 R2 [Wd Wr Wn Wt [Wh Whd] [Wt2 Wtd]].
   unfold pkt_ok. destruct (ipver_eqb (pk_ver p) (c_ver c)) eqn:Ev; [|reflexivity].
   apply ipver_eqb_eq in Ev.
-  destruct (failsafe_accept_all_paths c raw mangle filter e p Hc Hwg Hlocal Hinst Hsh Ev) as [F1 F2].
+  assert (Hsh2 : ipvs_shape c filter) by (intro E; congruence).
+  destruct (failsafe_accept_all_paths c raw mangle filter e p Hc Hwg Hlocal Hinst Hsh Hsh2 Ev) as [F1 F2].
   destruct Hinst as [Hr Hm Hf].
-  assert (Lin : lookup filter CH_INPUT = Some (filter_input c)) by (apply (Hf (CH_INPUT, _)); cbn; tauto).
-  assert (Lfw : lookup filter CH_FORWARD = Some (filter_forward c)) by (apply (Hf (CH_FORWARD, _)); cbn; tauto).
-  assert (Lwh : lookup filter CH_WL_TO_HOST = Some (wl_to_host c)) by (apply (Hf (CH_WL_TO_HOST, _)); cbn; tauto).
+  assert (Lin : lookup filter CH_INPUT = Some (filter_input c)) by (apply (Hf (CH_INPUT, _)); unfold static_filter; apply in_or_app; left; cbn; tauto).
+  assert (Lfw : lookup filter CH_FORWARD = Some (filter_forward c)) by (apply (Hf (CH_FORWARD, _)); unfold static_filter; apply in_or_app; left; cbn; tauto).
+  assert (Lwh : lookup filter CH_WL_TO_HOST = Some (wl_to_host c)) by (apply (Hf (CH_WL_TO_HOST, _)); unfold static_filter; apply in_or_app; left; cbn; tauto).
   rewrite F1, F2. rewrite (failsafe_responses_untracked c raw e p Hc Hwg Hr R1 R2 Ev).
   rewrite (tunnel_from_non_cluster_dropped c filter e p Hc Lin). cbn [andb]. rewrite andb_true_r.
   apply andb_true_iff. split.
@@ -53,10 +54,10 @@ Proof.
     rewrite Hfwd. cbn [verdict_eqb]. rewrite orb_true_r, andb_true_r.
     destruct (infra_allowed c e p) eqn:Ei; [reflexivity|].
     destruct (pre_policy_exempt c p) eqn:Ex; [reflexivity|]. cbn [orb].
-    rewrite (unknown_dropped_input_spec c filter e disp p Hc Lin Lwh Wd Wr Ev Ew Hun Ei Ex). reflexivity.
+    rewrite (unknown_dropped_input_spec c filter e disp p Hc Hipvs Lin Lwh Wd Wr Ev Ew Hun Ei Ex). reflexivity.
   - (* known workload to the host *)
     destruct (lookup_wl wl (pk_in p)) as [ch|] eqn:El.
     + destruct (Wt _ _ El) as [Htg [body [Hb Hnf]]].
-      apply (wl_to_host_policy_then_action c filter e wl disp ch body p Hep Lin Lwh Wd El Htg Hb (Hnf p) Ev).
+      apply (wl_to_host_policy_then_action c filter e wl disp ch body p Hep Hipvs Lin Lwh Wd El Htg Hb (Hnf p) Ev).
     + unfold wl_host_ok. rewrite El. reflexivity.
 Qed.
